@@ -16,8 +16,9 @@
                    Send, that Send's error at the step the last member returned.
    [C17T_guard]: the completion order is a permutation; levels: every float32 intermediate of the
                  reducer is exactly representable (so rounding and fused multiply-add cannot
-                 matter); Pull: members as the harness builds them, no scheduler-dependent event,
-                 strategy One excluded. *)
+                 matter); Pull: members as the harness builds them (at most 3000), no
+                 scheduler-dependent event, strategy One excluded.
+   Group/TraitGroupPullRace.v proves, for every case: tagrees -> C17T_guard -> C17T_ok. *)
 From Coq Require Import QArith.
 From SC Require Import Base.Prelude Group.Exec Group.C17Judge Group.TraitGroup.
 Open Scope Z_scope.
@@ -272,9 +273,11 @@ Definition hist_exact (n : nat) (hist : list (nat * Q)) : bool :=
   forallb (fun k => fold_exact_p 0 None (map (latest (firstn k hist)) (seq 0 n)))
           (seq 1 (List.length hist)).
 
+(* at most 3000 members: the canonical error numbers collide beyond (a failed Send is 3000+k, member
+   i's own error i+1) *)
 Definition pull_guard {V} (strategy : Z) (ms : list member) (eofs : list bool) (st : pstate V) : bool :=
-  negb (strategy =? 4) && members_ok ms && Nat.eqb (List.length eofs) (List.length ms)
-  && negb (p_nondet st).
+  (List.length ms <=? 3000)%nat && negb (strategy =? 4) && members_ok ms
+  && Nat.eqb (List.length eofs) (List.length ms) && negb (p_nondet st).
 
 (* ---- the judge ---- *)
 Definition tagrees (c : c17tcase) : bool :=
